@@ -12,6 +12,7 @@ import numpy as np
 from scipy import sparse
 
 from vlib import graphs
+from vlib.cases import Case, Sub, call as _call0, evaluate as _evaluate
 from vlib.core import enc_csr, enc_list, enc_opt_list, enc_bool, dec_list, dec_pairs
 
 RULE = ('exhaustive digraphs (with explicit zeros / negative weights sampled) n<=3 (quick: +sampled n=4; thorough: all n=4, '
@@ -29,27 +30,12 @@ def _enc_pairs(m):
 
 
 def _call(f):
-    try:
-        return f()
-    except ValueError:
-        return 'err ValueError'
-    except IndexError:
-        return 'err IndexError'
-    except TypeError:
-        return 'err TypeError'
+    return _call0(f)
 
 
 def _as_src(s):
     """The code accepts an int or an iterable: single-element sets are passed as ints half of the time."""
     return s
-
-
-class Case:
-    __slots__ = ('key', 'sig', 'run', 'impl', 'spec', 'nontrivial', 'desc', 'canon')
-
-    def __init__(self, key, sig, run, impl, spec=None, nontrivial=True, desc=None, canon=None):
-        self.key, self.sig, self.run, self.impl, self.spec = key, sig, run, impl, spec
-        self.nontrivial, self.desc, self.canon = nontrivial, desc, canon
 
 
 def cases_for_graph(ctx, a, rng, source_sets, full=True):
@@ -207,43 +193,17 @@ def _mk(n, es, w, m=None):
     return a
 
 
-def _canon_bfs(ans, a_dist):
-    return ans
+def _same(c, model, impl, spec_ok):
+    if c.canon == 'bfs' and model.startswith('ok') and impl.startswith('ok'):
+        # np.argsort may order ties differently: the spec line is the judge of the order
+        return sorted(dec_list(model[3:])) == sorted(dec_list(impl[3:])) and spec_ok
+    if c.spec is None and model.startswith('err') and impl.startswith('err'):
+        return True   # numpy words an error differently; same place, same refusal
+    return False
 
 
 def evaluate(ctx, cases):
-    lines = []
-    idx = []
-    for c in cases:
-        idx.append(len(lines))
-        lines.append(c.run)
-        if c.spec:
-            lines.append(c.spec)
-    answers = ctx.lean(lines)
-    for c, i in zip(cases, idx):
-        model = answers[i]
-        ctx.case(c.key, c.nontrivial, sample={'request': c.run, 'model': model, 'impl': c.impl})
-        ctx.count('entry:' + c.sig['entry'])
-        ctx.count('answer:' + ('error' if c.impl.startswith('err') else 'ok'))
-        spec_ok = True
-        if c.spec:
-            sp = answers[i + 1]
-            if sp != 'holds':
-                spec_ok = False
-                ctx.spec_fail(c.sig, c.desc, {'spec_line': c.spec, 'spec_answer': sp, 'impl': c.impl, 'model': model})
-        same = (model == c.impl)
-        if not same and c.canon == 'bfs' and model.startswith('ok') and c.impl.startswith('ok'):
-            # np.argsort may order ties differently: the spec line is the judge of the order
-            same = sorted(dec_list(model[3:])) == sorted(dec_list(c.impl[3:])) and spec_ok
-        if not same and spec_ok:
-            # an error kind that numpy words differently is still an error at the same place
-            if c.spec is None and model.startswith('err') and c.impl.startswith('err'):
-                ctx.count('error-kind-differs')
-                continue
-            if c.spec is None and (model.startswith('err') != c.impl.startswith('err')):
-                ctx.spec_fail(c.sig, c.desc, {'model': model, 'impl': c.impl, 'why': 'error behaviour differs from the documented routing'})
-                continue
-            ctx.disagree(c.sig, c.desc, model, c.impl, c.run)
+    _evaluate(ctx, cases, same=_same)
 
 
 def build_cases(ctx):
@@ -309,31 +269,7 @@ def search(ctx, pending):
             cases += cases_for_bigraph(ctx, _mk(nr, es, [1] * len(es), m=nc), rng, full=True)
     sub = Sub(ctx)
     evaluate(sub, cases)
-    return [{'sig': f['sig'], 'case': f['case'], 'detail': f['detail']} for f in sub.spec_failures[:5]]
-
-
-class Sub:
-    """A context that collects spec failures without touching the counters of the main run."""
-
-    def __init__(self, ctx):
-        self.ctx = ctx
-        self.spec_failures = []
-        self.run_disagreements = []
-
-    def lean(self, lines):
-        return self.ctx.lean(lines)
-
-    def case(self, *a, **k):
-        pass
-
-    def count(self, *a, **k):
-        pass
-
-    def spec_fail(self, sig, case, detail):
-        self.spec_failures.append({'sig': sig, 'case': case, 'detail': detail})
-
-    def disagree(self, sig, case, model, impl, line=None):
-        self.run_disagreements.append({'sig': sig, 'case': case, 'model': model, 'impl': impl})
+    return sub.found()
 
 
 def replay(ctx, payload):
